@@ -192,7 +192,7 @@ def run_check(modname, tier, seed, only_case=None):
     evp = os.path.join(evdir, prop + ".json")
     with open(evp, "w") as f:
         json.dump(ev, f, indent=1, default=repr, ensure_ascii=False)
-    _validate(evp)
+    evidence_ok = _validate(evp)
 
     print("%s tier=%s seed=%d tasks=%d cases=%d nontrivial=%d outcomes=%d wall=%.1fs" % (
         prop, tier, seed, len(tasks), agg.n, len(agg.nontrivial), len(agg.outcomes), wall))
@@ -222,6 +222,9 @@ def run_check(modname, tier, seed, only_case=None):
             print("HARNESS-NONDETERMINISM what=%s case=%s replay-result=%s" % (
                 v.get("what"), jdump(v.get("case"))[:400], str(rr)[:800]))
         status = status or 2
+    if not evidence_ok:
+        # (a tree on which nothing at all works yields no non-trivial case: violations above take precedence)
+        status = status or 2
     if hasattr(check, "sanity"):
         msg = check.sanity(agg, cov, tier)
         if msg:
@@ -234,7 +237,7 @@ def _validate(path):
     schema = "/root/.vp/EVIDENCE.schema.json"
     vt = "/opt/veriftools/pyvenv/bin/python"
     if not (os.path.exists(schema) and os.path.exists(vt)):
-        return
+        return True
     code = (
         "import json,sys,jsonschema;"
         "jsonschema.validate(json.load(open(sys.argv[1])), json.load(open(sys.argv[2])))"
@@ -242,4 +245,5 @@ def _validate(path):
     r = subprocess.run([vt, "-c", code, path, schema], capture_output=True, text=True)
     if r.returncode != 0:
         print("HARNESS-ERROR evidence does not validate: " + r.stderr[-800:])
-        sys.exit(2)
+        return False
+    return True
